@@ -538,6 +538,8 @@ func runOnce(c Case, deadline time.Duration, rec bool) (fail, miss *evid.Failure
 		gmu  sync.Mutex
 		gate chan struct{}
 		me   = goid()
+		// holdStart is when the current held burst began (diagnostics only)
+		holdStart time.Time
 	)
 	tap.SetForward(func(netsim.Frame) {
 		gmu.Lock()
@@ -551,6 +553,9 @@ func runOnce(c Case, deadline time.Duration, rec bool) (fail, miss *evid.Failure
 		case <-time.After(2 * time.Second): // never wedge the stack should injection depend on emission
 			if rec {
 				evid.Label("hold:released-by-timeout")
+				gmu.Lock()
+				evid.Note("hold released by timeout: the burst had been under injection for %v", time.Since(holdStart))
+				gmu.Unlock()
 			}
 		}
 	})
@@ -564,6 +569,7 @@ func runOnce(c Case, deadline time.Duration, rec bool) (fail, miss *evid.Failure
 		if hold {
 			gmu.Lock()
 			gate = make(chan struct{})
+			holdStart = time.Now()
 			gmu.Unlock()
 			if rec {
 				evid.Label(fmt.Sprintf("hold:burst-of-%d", len(burst)))
@@ -928,7 +934,7 @@ func genCase(rt *rapid.T) Case {
 		return b
 	})
 	var all []Req
-	for _, b := range rapid.SliceOfN(burstGen, 1, 3).Draw(rt, "bursts") {
+	for _, b := range rapid.SliceOfN(burstGen, 1, 5).Draw(rt, "bursts") {
 		var burst []Req
 		for _, pr := range b.reqs {
 			r := pr.r
